@@ -5,6 +5,7 @@ Line-protocol driver for C17. State: style registry, worksheet grid, the Spec's 
 and the declared values of the external `extractNumFmtDecimal` (`decl`).
 
   reset                         new workbook                      -> ok <registry dump>
+  resetc f l b x                NewFile() package reopened with these count attributes in styles.xml -> ok <registry dump>
   decl <hexcode> <n>            environment: extractNumFmtDecimal -> ok
   new <style>                   NewStyle                          -> ok <id> sz=.. dp=.. <counts> | ERR
   get <id>                      GetStyle                          -> ok <style> | ERR
@@ -200,6 +201,13 @@ def nat? (s : String) : Option Nat := s.toNat?
 def step (st : St) (w : List String) : St × String :=
   match w with
   | ["reset"] => ({ St.init with dec := st.dec }, "ok " ++ dumpReg initReg)
+  | ["resetc", a, b, c, d] =>
+    -- NewFile()'s style sheet with other `count` attributes (a file written by another producer)
+    match nat? a, nat? b, nat? c, nat? d with
+    | some a, some b, some c, some d =>
+      let r0 : Reg := { initReg with fontsCount := a, fillsCount := b, bordersCount := c, xfsCount := d }
+      ({ St.init with dec := st.dec, reg := r0 }, "ok " ++ dumpReg r0)
+    | _, _, _, _ => (st, "bad-op")
   | ["decl", h, n] =>
     match unhexS h, n.toInt? with
     | some c, some n => ({ st with dec := (c, n) :: st.dec }, "ok")
